@@ -558,11 +558,11 @@ def run(chk, thorough, sd):
         if is_classic:
             ks = kinds_all
         else:
-            ks = ["i32", "i64"] if thorough else [rng.choice(["i32", "i64", "u32", "TUint64", "uptr", "TInt32"])]
+            ks = [rng.choice(["i32", "i64", "u32", "TUint64", "uptr", "TInt32"])]
         for k in ks:
             if kind_ok(k, p["init"], p["threads"]):
                 tests.append({"id": len(tests) + 1, "prog": p["id"], "name": p["name"], "kind": k, "init": p["init"], "threads": p["threads"]})
-    rounds = 12000 if thorough else 1500
+    rounds = 4000 if thorough else 1500      # measured: 48 M rounds (all pairs x 2 kinds x 12000) exceed the time limits under load
     src = gen_program(tests, rounds)
     bytest = {t["id"]: t for t in tests}
     d = os.path.join(rd, "litmus")
@@ -592,7 +592,7 @@ def run(chk, thorough, sd):
     ok, out = C.go_build(d, refexe, go=C.ref_go())   # 1.24.0 miscompiles atomic.OrInt32 with a used result (operand taken as address)
     if not ok:
         raise C.Undecided("reference toolchain cannot build the litmus program:\n" + out[-2000:])
-    st, so, se = C.run_exe(refexe, timeout=1500, merge=True)
+    st, so, se = C.run_exe(refexe, timeout=3000, merge=True)
     if st != 0 or "done" not in so:
         raise C.Undecided("reference run of the litmus program failed: %s %s" % (st, so[-500:]))
     refbad = []
